@@ -183,7 +183,7 @@ struct XSched : Engine {
     }
     std::string describe(const Case& c) override { build_harnesses(); size_t hi = (size_t)c.iv[1]; if (hi >= H.size()) return "?"; std::string s = "threads{"; for (size_t t = 0; t < H[hi].progs.size(); t++) { if (t) s += " || "; s += progs::all()[H[hi].progs[t]].name; } return s + "} preemption bound " + std::to_string(c.iv[2]); }
     void finish(std::map<std::string, std::string>& x) override {
-        x["rule"] = jstr("one case = one multi-threaded harness (all 55 unordered pairs of 10 thread programs + 8 triples) at one preemption bound; all schedules with at most that many preemptions are executed (scheduling points = accesses, incl. through wrapped libc calls, to static bytes that one thread writes and another touches, plus the error location); "
+        x["rule"] = jstr("one case = one multi-threaded harness (all unordered pairs of the 12 thread programs + 8 triples) at one preemption bound; all schedules with at most that many preemptions are executed (scheduling points = accesses, incl. through wrapped libc calls, to static bytes that one thread writes and another touches, plus the error location); "
                          "per schedule every thread's observation must equal its solo observation; non-trivial = harnesses with more than one schedule");
     }
 };
